@@ -711,6 +711,32 @@ def check_any(rep, decls, records):
                 rep.instance("F.any", "AnyManifold", "delegation " + what, ok=bad is None, sample={})
             if bad:
                 rep.violation(Finding("F.any", "AnyManifold", "delegation", bad, *A.loc(node)))
+        # the wrapped value is replaced through the mutable accessor get<M>() (a run-time-sized payload that is resized): dof / rminus follow the current value
+        def thunk3():
+            M = ManiMachine(decls, records)
+            a = mk(M, Pt("P", 3))
+            gets = [d for d in decls.get("get", []) if d.qname.split("::")[-2:-1] == ["AnyManifold"] and "const" not in (d.node.get("type", {}).get("qualType", "").split(")")[-1])]
+            if len(gets) != 1:
+                raise Unab("%d mutable AnyManifold::get" % len(gets))
+            got = M.run_function(gets[0], [], this=a)
+            if not same_point(M.rv(got), Pt("P", 3)):
+                raise AbstractViolation("get<M>() yields %s, the wrapped value is P" % show_val(M.rv(got)))
+            # get<M>() hands out M&: whatever the caller assigns through that reference reaches the wrapped object directly (no member function can observe it)
+            mutate(a, Pt("R", 5))
+            dofs = [d for d in decls.get("dof", []) if d.qname.split("::")[-2:-1] == ["AnyManifold"]]
+            n = M.run_function(dofs[0], [], this=a)
+            return payload(a), n
+        ok, res = guarded(rep, "F.any", "AnyManifold", "dof after get<M>() = ...", node, thunk3)
+        if ok:
+            pl, n = res
+            bad = None
+            if not same_point(pl, Pt("R", 5)):
+                bad = "assigning through get<M>() leaves the wrapped value at %s" % show_val(pl)
+            elif simp(n) != 5:
+                bad = "after the wrapped value was replaced through get<M>() by one with 5 degrees of freedom, dof() still gives %s (a value cached at construction): rplus / rminus and dof() disagree" % show_val(n)
+            rep.instance("F.any", "AnyManifold", "dof after get<M>() = ...", ok=bad is None, sample={})
+            if bad:
+                rep.violation(Finding("F.any", "AnyManifold", "dof after get<M>() = ...", bad, *A.loc(node)))
     except splinem.RuleBroken:
         pass
 
